@@ -3,7 +3,7 @@ import random, copy
 from common import *
 
 ID = "C17"
-THEOREM_FILES = ["Summer.Props.C17", "Summer.Props.C17Source", "Summer.Props.C17Glue", "Summer.Props.C17Strat", "Summer.Props.C17Reach", "Summer.Props.C12Source"]
+THEOREM_FILES = ["Summer.Props.C17", "Summer.Props.C17Source", "Summer.Props.C17Glue", "Summer.Props.C17Strat", "Summer.Props.C17Reach", "Summer.Props.C12Source", "Summer.Props.C17GlueReq"]
 TASK = "task"
 RULE = ("malformed stream: a valid generated program in which exactly one defect from the property's list is injected at a random point of "
         "the build sequence (before/after flows, after 0-3 stratifications); oracle: the offending call must raise on the real code (and the "
